@@ -74,6 +74,17 @@ pub mod m {
 
     #[derive(TS)]
     #[ts(export_to = "shared/m.ts")]
+    pub struct Quux {
+        /// see export type Foo = { .. } and export type Imp1 for details
+        a: i32,
+        /** block doc
+
+        export type Foo2 = never; */
+        b: i32,
+    }
+
+    #[derive(TS)]
+    #[ts(export_to = "shared/m.ts")]
     pub struct Tail {
         /// first field
         a: i32,
@@ -140,6 +151,7 @@ pub mod m {
             ti!(FooBar, "doc-blank-line"),
             ti!(Baz, "doc-export-type-words"),
             ti!(Qux, "doc-export-type-words"),
+            ti!(Quux, "doc-export-type-words", "doc-names-sibling-type", "doc-blank-line"),
         ]
     }
 }
@@ -153,6 +165,16 @@ pub mod u {
     #[derive(TS)]
     pub struct UL {
         z: i32,
+    }
+    #[derive(TS)]
+    #[ts(export_to = "UL.ts")]
+    pub struct UL2 {
+        z: bool,
+    }
+    #[derive(TS)]
+    #[ts(export_to = "s.ts")]
+    pub struct UH {
+        l2: UL2,
     }
     /// Doc of UA.
     #[derive(TS)]
@@ -226,6 +248,8 @@ pub mod u {
             U { info: ti!(UD), closure: &["UD", "UB", "UC", "UL", "UA"], loc: "d/UD.ts" },
             U { info: ti!(UE<ts_rs::Dummy>), closure: &["UE", "UA"], loc: "UE.ts" },
             U { info: ti!(UL), closure: &["UL"], loc: "UL.ts" },
+            U { info: ti!(UL2), closure: &["UL2"], loc: "UL.ts" },
+            U { info: ti!(UH), closure: &["UH", "UL2"], loc: "s.ts" },
             U { info: ti!(UN), closure: &["UN", "UL"], loc: "d/e/UN.ts" },
         ]
     }
@@ -323,6 +347,8 @@ pub mod g {
         r: Vec<RCyc1>,
         c: C,
     }
+    // two dependencies that each have a dependency of their own (shared-file import unions)
+    root!(struct RBoth { b: B, b2: B2, g: G<C> });
     // the same type used in two presentations inside one container
     root!(struct RInlineAndName { #[ts(inline)] a: B2, b: B2 });
     root!(struct RNameAndInline { b: B2, #[ts(inline)] a: B2 });
@@ -392,6 +418,7 @@ pub mod g {
             ti!(RPairGen, "generic-arg", "two-instantiations"),
             ti!(RSelf, "self-reference"),
             ti!(RCyc1, "cycle"),
+            ti!(RBoth, "field", "generic-arg"),
             ti!(RInlineAndName, "inline", "field", "same-type-twice"),
             ti!(RNameAndInline, "inline", "field", "same-type-twice"),
             ti!(RFlattenAndName, "flatten", "field", "same-type-twice"),
